@@ -4,7 +4,9 @@ import json, subprocess
 
 BASE_OFF = "cd /repo && go test -vet=off -count=1 ./..."
 NOTE_COMMON = ("Trusted base: go/packages + go/types + go/ssa + VTA call graph of golang.org/x/tools v0.29.0, the Go standard library's documented behaviour, "
-               "and this checker's own rules (unverified; exercised both ways by /verif/mutants and /verif/seeded). ")
+               "and this checker's own rules (unverified; exercised both ways by /verif/mutants, /verif/seeded and the behaviour-preserving refactorings in /verif/mutants/benign). "
+               "Where this property's guarantee rests on a rule that belongs to another property (cell text, property store, column bookkeeping, write-error discipline, fresh render buffer, row list), "
+               "that rule's obligations are evaluated again here and appear in the evidence as '... premise [Rxx.y] ...'. ")
 
 # id -> (text, technique, note, design_ref)   ; ids absent here go to not_applicable with NA[id]
 CHECKS = {
@@ -19,13 +21,13 @@ CHECKS = {
  "C04": ("NECESSARY CONDITIONS ONLY (that text survives unmodified and pad counts for all inputs are value-level): effective alignment = own setting else column-0 default (dataflow: the default flows to the same destination on the own-is-nil edge); slot wiring uses one index for text, width and alignment; line l/column c of a row is line l of cell c, blanks for missing; padding = available - W clamped at 0 with the text exactly once and the documented side/split per alignment (linear identities over SSA); declared width/height reach layout and the single-line declared width reaches the padding.",
          "index-agreement and linear-identity rules on SSA; nil-edge dataflow for the effective property", "strings.Repeat(\" \", n) is n spaces.", "DESIGN.md 3 C04"),
  "C05": ("Taint analysis (cell text -> writer only through a function recognised by its body as an RFC 4180 all-fields quoter, constants and the constant-only separator field otherwise), refusal of column-less tables before the first write, header-first/rows-in-order/separators-skipped structure, per-record shape (one field per column index, quoted cell where the row has one and the quoted empty field otherwise, separator before every field but the first, one terminator), and the quoter's buffer arithmetic via the index-safety prover. Does not decide the byte-for-byte round trip.",
-         "interprocedural taint on SSA with sanitizers recognised by shape; dominance/refusal rules; linear edge-condition checks", "fmt.Fprint of one string writes that string.", "DESIGN.md 3 C05"),
+         "interprocedural taint on SSA with sanitizers recognised by shape; content-fidelity walk (only the quoter and concatenation may touch cell text); dominance/refusal rules; linear edge-condition checks", "fmt.Fprint of one string writes that string.", "DESIGN.md 3 C05"),
  "C06": ("The only write is html/template's Execute of a template parsed from a string constant on plain-string data; no conversion to html/template's trusted types anywhere in the package; template functions return no trusted type except the caller's own row-class result; the template constant is parsed statically (text/template/parse) and its tag skeleton, attributes, guards, range/if nesting (rows in order, separators skipped, one th/td per cell) and the two RowClass uses (0 / OnePlus of the Rows range index, under HaveRowClass) are checked, as are the Go bindings of Rows/Headers/CellsOf/OnePlus/RowClass. html/template's escaper itself is trusted.",
          "static parse of the embedded template DSL + SSA checks of its function bindings and of trusted-type conversions", "html/template escapes plain strings contextually.", "DESIGN.md 3 C06"),
  "C07": ("Taint (only constants and json.Marshal output are written), every documented refusal is a branch returning a non-nil error that cannot be reached once anything has been written, the comma state machine (any array-level write that may contain a comma is followed by an object emission on every path before the loop comes round or the array closes), object shape (braces, separators, key before value with the same index, skip rule), and skipable = own else column-0 default. encoding/json is trusted for value/key syntax.",
          "taint on SSA; reachability/dominance rules for validation-before-output; path rule for the comma state machine", "encoding/json output is valid JSON.", "DESIGN.md 3 C07"),
  "C08": ("Taint (cell text -> writer only through a function recognised by its body as html.EscapeString first, then '|' and LF to numeric entities), refusals before output, header/delimiter/rows sequence with separators skipped, pipe bookkeeping per line (shape), every dash run proved >= 3 by the linear prover, colon placement per alignment arm, and the effective-alignment rule shared with the text renderer. Entity-decoding equality is not decided.",
-         "taint on SSA with sanitizer shape; linear prover for the dash clamp; sibling agreement with the text renderer's alignment resolution", "html.EscapeString escapes <, >, &, ' and \".", "DESIGN.md 3 C08"),
+         "taint on SSA with sanitizer shape; content-fidelity walk; linear prover for the dash clamp; sibling agreement with the text renderer's alignment resolution", "html.EscapeString escapes <, >, &, ' and \".", "DESIGN.md 3 C08"),
  "C09": ("Panic-freedom as a finite set of instruction-level obligations (index, slice, make/Repeat size, division, unchecked assertion, explicit panic, dereference of a possibly-nil result) in every library function, each discharged for all table shapes by an abstract interpretation over SSA: linear facts from definitions, dominating branches, inductive loop invariants, memory forwarding, module-wide field facts proved at every writer, callee summaries and call-site requirements (depth <= 3), decided by Fourier-Motzkin; out-of-quantifier panics are tabled with machine-checked premises; every Render returns \"\" with every non-nil error. "
          "This is the property static analysis suits best: all 140+ obligations must be discharged, an undecided one is an alarm.",
          "abstract interpretation over SSA with linear-arithmetic entailment (Fourier-Motzkin), interprocedural requires/summaries, tabled premises", "Standard library and width dependencies do not panic on the arguments given; Table implementers are the module's.", "DESIGN.md 2.2, 3 C09"),
@@ -41,11 +43,11 @@ CHECKS = {
          "interprocedural effects/mod-set analysis with parametric origins", "User callbacks are excluded, as the property allows.", "DESIGN.md 3 C14"),
  "C15": ("Static error-discipline rule W1 at every call that is handed the destination writer (exhaustive over write sites, hence over every failure point and table): the error is returned or nil-tested before any further write and the failure branch returns it without writing. "
          "Decides 'a failing write always surfaces and nothing is written after it'; the byte-prefix clause follows structurally; no-panic is C09's.",
-         "SSA dataflow: must-check-before-next-write rule over every io.Writer call site",
+         "SSA dataflow: must-check-before-next-write rule over every call site that receives the destination writer (flow-scoped); no wrapper-resident output buffers; panic obligations of the writing functions",
          "Assumes fmt/io/html-template stop at the first writer error.", "DESIGN.md 2.3, 3 C15"),
  "C16": ("Interprocedural effect analysis (who writes what, with the origin of the written object) over the module, go-runewidth and uniseg: no package-level variable reachable from the public API is written after package initialisation unless under its own mutex, no goroutine is started, wrapper fields are written only through their receiver. "
          "Decides absence of shared mutable state between distinct tables, which is what race freedom for independent tables requires; does not decide byte-equality of concurrent outputs.",
-         "interprocedural effects/mod-set analysis over SSA + call graph; global-mutability classification",
+         "interprocedural effects/mod-set analysis over SSA + call graph; global-mutability classification; sync.Pool hand-over rule; immutability of structure shared by cell copies",
          "Assumes the standard library is race-free for the uses made of it; callers sharing items between tables are out of scope.", "DESIGN.md 2.4, 3 C16"),
  "C17": ("Lock-held must-analysis over the CFG of every function touching the registry (every map access under the mutex on all paths, released on every exit, address never escapes), plus dataflow rules for the fail-closed chain Named -> SetDecorationNamed -> RenderTo and agreement of the D_* constants with init-time registrations and of the listing with the sorted key set. "
          "Decides data-race freedom of the registry for all schedules and the fail-closed behaviour; does not decide last-writer-wins (map semantics).",
